@@ -35,4 +35,6 @@ pub use crate::ring_buffer::variants::concurrent_rb::ConcurrentMutRingBuf;
 pub use crate::ring_buffer::variants::local_rb::LocalMutRingBuf;
 
 pub mod iterators;
+#[cfg(feature = "verif-hooks")]
+pub mod verif;
 mod ring_buffer;
